@@ -121,14 +121,67 @@ Definition write_tick (c : cfg) (nonempty : bool) (x : string) (tv : list string
 Definition disk_files (c : cfg) (fs : list (fkey * fcontent)) : list (string * dcontent) :=
   map (fun kv => (disk_path (fst kv), DText (pr_content c (snd kv)))) fs.
 
-Inductive derr := DBuild (e : berr) | DTagErr.
+Inductive derr := DBuild (e : berr) | DTagErr | DCopyClash.
+
+(* ------------------------------------------------------------------ (round 5) functions of the #copy library
+   DataPack.is_function_in_copy: a function NAME counts as shipped by the #copy folder iff the copied tree holds
+   data/<ns or override>/<folder>/<path>.mcfunction where <folder> is the ONE function folder the configured pack
+   format loads (func_folder (c_legacy c): `function` from format 48, `functions` below) — the other spelling is a
+   folder Minecraft does not read at that format.  build() uses it twice: a generated function that the library
+   also ships stops the build (JMCBuildError), and a CALLED name that no function of the program defines is accepted
+   iff the library ships it (otherwise "was never defined"). *)
+Definition in_copy (c : cfg) (e : denv) (p : string) : bool :=
+  match e_copy e with Some t => dmem (disk_path (fkey_of c p)) t | None => false end.
+Definition copy_clash (c : cfg) (e : denv) (f : list (string * nat)) : bool := existsb (fun pf => in_copy c e (fst pf)) f.
+Fixpoint check_called_lib (lib : string -> bool) (c : cfg) (st : state) (f : list (string * nat)) (l : list (string * string)) : option berr :=
+  match l with
+  | [] => None
+  | (p, pre) :: r =>
+      if priv_violation st p pre then Some (BPrivateCalled p)
+      else if negb (lib p) && negb (amem p f) && negb (mem_str (first_seg p) (c_links c))
+      then Some (if mem_str p (lazy st) then BLazyUsed p else BNeverDefined p)
+      else check_called_lib lib c st f r
+  end.
+Definition checks_lib (lib : string -> bool) (c : cfg) (b : bdata) (st : state) (f : list (string * nat)) : option berr :=
+  match check_called_lib lib c st f (called st) with
+  | Some e => Some e
+  | None => match b_envs b with
+            | _ :: _ => Some BEnvs
+            | [] => if b_delayed b then Some BDelayed else None
+            end
+  end.
+(* the discipline of a state handed to a DISK build: as [disc], but a function reference may also name a called function
+   the #copy library ships in the loaded folder *)
+Definition ref_defined_lib (c : cfg) (e : denv) (b : bdata) (st : state) (r : ref) : bool :=
+  ref_defined c b st r ||
+  match r with
+  | RFunc l => existsb (fun pp : string * string => String.eqb (fmt c (fst pp)) l && in_copy c e (fst pp)) (called st)
+  | RTag _ => false
+  end.
+Definition text_disc_lib (c : cfg) (e : denv) (b : bdata) (st : state) : bool :=
+  forallb (fun l => forallb (ref_defined_lib c e b st) (refs_of_line l)) (all_lines c b st)
+  && forallb (fun e' : string * (string * bool) => if snd (snd e')
+                       then forallb (ref_defined_lib c e b st) (json_refs c (jkey_of c (fst e')) (fst (snd e')))
+                       else true) (jsons st).
+Definition disc_lib (c : cfg) (e : denv) (b : bdata) (st : state) : bool :=
+  text_disc_lib c e b st && paths_disc c b st && tag_free c st.
+(* every file the build generates (both tags, functions, jsons), whether or not the virtual build's checks pass *)
+Definition all_files (c : cfg) (b : bdata) (st : state) : list (fkey * fcontent) :=
+  match assemble c b st with
+  | inr hf => match emit_funcs c (fst hf) (snd hf) with
+              | inr ff => (emit_tags c (fst hf) (snd hf) ++ ff ++ emit_jsons c (jsons st))%list
+              | inl _ => []
+              end
+  | inl _ => []
+  end.
 
 (* what one build leaves in the output directory, parametrised by the place of the #copy step *)
 Definition dbuild_gen (copy_last : bool) (c : cfg) (e : denv) (b : bdata) (st : state) : derr + dtree :=
   match assemble c b st with
   | inl er => inl (DBuild er)
   | inr hf =>
-      match checks c b st (snd hf) with
+      if copy_clash c e (snd hf) then inl DCopyClash else
+      match checks_lib (in_copy c e) c b st (snd hf) with
       | Some er => inl (DBuild er)
       | None =>
           match emit_funcs c (fst hf) (snd hf) with
